@@ -264,6 +264,8 @@ def inproc_case(caller, size, old, at, kind, err, times, ref, sess: Session, ste
         after = snapshot_dir(d)
         sess.evaluations += 1
         sess.count("inprocess_fault_runs")
+        if at is not None and plan.fired:
+            sess.sample({**case, "step": plan.steps[at - 1] if at <= len(plan.steps) else None, "outcome": outcome, "io_steps": plan.steps})
         if plan.fired:
             sess.count("inprocess_faults_fired")
             sess.count("fault_fired:" + kind)
